@@ -25,7 +25,7 @@ RULE = (
     "region, control variable) that existed before the stage; every pre-existing block/region survives with its class and payload; the number of blocks and "
     "regions grew by exactly the number of block/region names generated (meta-region names excluded) - a clobbered block shows as a shortfall; the product "
     "walk of C01 still passes against the input graph; after construction, after every stage and after every read-back a copy of the graph's generator is asked "
-    "for a block, a region and a variable name of every kind that occurs in the graph's names, none may be an existing name. Non-trivial = the history has a write-read between two stages or the input uses a generator-style "
+    "for a block, a region and a variable name of every kind that occurs in the graph's names, none may be an existing name. Further legs: one NameGenerator object serving a sequence of 300 (quick) / 5000 graphs that each hold the name it would hand out next, earlier graphs dropped (memory reuse); the generators of the graphs one FlowInfo builds when asked twice. Non-trivial = the history has a write-read between two stages or the input uses a generator-style "
     "name. Distinct = hash of the history."
 )
 ASSUME = ["kinds are strings (the API's type); names of input blocks are strings"]
